@@ -394,3 +394,104 @@ pub fn ne_count_b<F: FnMut()>(n: usize, mut f: F) {
         left -= 1;
     }
 }
+
+// ---- a record built by literal, by later field stores, through a helper
+pub struct Pair {
+    pub reads: Option<u32>,
+    pub writes: Option<u32>,
+}
+fn mk_pair(writes: Option<u32>, reads: Option<u32>) -> Pair {
+    Pair { writes, reads }
+}
+pub fn eq_build_a(r: Option<u32>, w: Option<u32>) -> Pair {
+    Pair { reads: r, writes: w }
+}
+pub fn eq_build_b(r: Option<u32>, w: Option<u32>) -> Pair {
+    let mut p = Pair { reads: None, writes: w };
+    p.reads = r;
+    p
+}
+pub fn eq_build_c(r: Option<u32>, w: Option<u32>) -> Pair {
+    mk_pair(w, r)
+}
+pub fn ne_build_a(r: Option<u32>, w: Option<u32>) -> Pair {
+    Pair { reads: r, writes: w }
+}
+pub fn ne_build_b(r: Option<u32>, w: Option<u32>) -> Pair {
+    mk_pair(r, w)
+}
+
+// ---- a fold over a pair  ==  a loop over two variables
+pub fn eq_pairfold_a<P: Fn(usize) -> bool, Q: Fn(usize) -> bool>(n: usize, p: P, q: Q) -> (Verdict, bool) {
+    let mut v = Verdict::None;
+    let mut flag = false;
+    for g in 0..n {
+        if p(g) {
+            v = Verdict::add(v, g);
+        } else if q(g) {
+            flag = true;
+            v = Verdict::add(v, g);
+        }
+    }
+    (v, flag)
+}
+pub fn eq_pairfold_b<P: Fn(usize) -> bool, Q: Fn(usize) -> bool>(n: usize, p: P, q: Q) -> (Verdict, bool) {
+    (0..n).fold((Verdict::None, false), |(v, flag), g| {
+        if p(g) {
+            (Verdict::add(v, g), flag)
+        } else if q(g) {
+            (Verdict::add(v, g), true)
+        } else {
+            (v, flag)
+        }
+    })
+}
+pub fn ne_pairfold_a<P: Fn(usize) -> bool, Q: Fn(usize) -> bool>(n: usize, p: P, q: Q) -> (Verdict, bool) {
+    eq_pairfold_a(n, p, q)
+}
+pub fn ne_pairfold_b<P: Fn(usize) -> bool, Q: Fn(usize) -> bool>(n: usize, p: P, q: Q) -> (Verdict, bool) {
+    (0..n).fold((Verdict::None, false), |(v, flag), g| {
+        if p(g) {
+            (Verdict::add(v, g), true)
+        } else if q(g) {
+            (Verdict::add(v, g), flag)
+        } else {
+            (v, flag)
+        }
+    })
+}
+
+// ---- a loop over a list written out  ==  the statements written out
+pub fn eq_lit_a<F: FnMut(u32)>(a: u32, b: u32, mut f: F) {
+    f(a);
+    f(b);
+}
+pub fn eq_lit_b<F: FnMut(u32)>(a: u32, b: u32, mut f: F) {
+    for x in [a, b] {
+        f(x);
+    }
+}
+pub fn eq_lit_c<F: FnMut(u32)>(a: u32, b: u32, mut f: F) {
+    for x in vec![a, b] {
+        f(x);
+    }
+}
+pub fn ne_lit_a<F: FnMut(u32)>(a: u32, b: u32, mut f: F) {
+    f(a);
+    f(b);
+}
+pub fn ne_lit_b<F: FnMut(u32)>(a: u32, b: u32, mut f: F) {
+    for x in [b, a] {
+        f(x);
+    }
+}
+pub fn ne_litpush_a<F: FnMut(u32)>(a: u32, b: u32, mut f: F) {
+    f(a);
+}
+pub fn ne_litpush_b<F: FnMut(u32)>(a: u32, b: u32, mut f: F) {
+    let mut v = vec![a];
+    v.push(b);
+    for x in v {
+        f(x);
+    }
+}
